@@ -232,10 +232,10 @@ pub fn run(run: &mut Run) -> Finish {
     let tier = run.ctx.tier;
     let kmax = tier.pick(4, 6);
     let nt = t_count(kmax);
-    run.par_slice("T: every sorted multiset of <= 4/6 tokens, three constructions (+ rewrite/adjust_mappings/flatten products for <= 3 tokens)", 1, nt * 3, |idx, l| {
+    run.par_slice("T: every sorted multiset of <= 4/6 tokens, four constructions (the fourth leaves stale values in the unwritten fields of sourceless tokens; + rewrite/adjust_mappings/flatten products for <= 3 tokens)", 1, nt * 4, |idx, l| {
         let k = idx & ((1 << 40) - 1);
-        let m = t_map(kmax, k / 3);
-        let (v, ran) = check_regular(&m, (k % 3) as usize, m.tokens.len() <= 3);
+        let m = t_map(kmax, k / 4);
+        let (v, ran) = check_regular(&m, [0usize, 1, 2, 5][(k % 4) as usize], m.tokens.len() <= 3);
         for x in v {
             l.violation(idx, x);
         }
@@ -247,10 +247,10 @@ pub fn run(run: &mut Run) -> Finish {
         }
     });
     let n1 = s1_count();
-    run.par_slice("S1: sources x roots x contents patterns, four constructions (the fourth reaches the map through root changes), also through to_data_url", 2, n1 * 4, |idx, l| {
+    run.par_slice("S1: sources x roots x contents patterns, five constructions (the fourth reaches the map through root changes, the fifth through set_source on placeholder names), also through to_data_url", 2, n1 * 5, |idx, l| {
         let k = idx & ((1 << 40) - 1);
-        let m = s1_map(k / 4);
-        let how = (k % 4) as usize;
+        let m = s1_map(k / 5);
+        let how = (k % 5) as usize;
         let (v, ran) = check_regular(&m, how, true);
         for x in v {
             l.violation(idx, x);
